@@ -1,5 +1,5 @@
 ---- MODULE MC_Gen ----
 EXTENDS Gen
 B1 == { <<"enter", "yield", "log", "exit">>, <<"log", "ycatch", "enter", "yield">>, <<"yield", "sub", "yield">>, <<"enter", "sub", "yield", "exit">> }
-B2 == { <<"enter", "yield", "log", "exit">>, <<"yield", "sub", "log">>, <<"enter", "ycatch", "yield">>, <<"sub", "enter", "yield", "log">>, <<"log", "yield">> }
+B2 == { <<"enter", "yield", "log", "exit">>, <<"yield", "sub", "log">>, <<"enter", "ycatch", "yield">>, <<"sub", "enter", "yield", "log">>, <<"log", "yield">>, <<"log">>, <<"enter", "log", "exit">> }
 ====
